@@ -2529,6 +2529,31 @@ func fixedCases() []caseT {
 			}
 		}
 	}
+	// K04k: a nested struct given as one JSON value under its own key, beyond the depth limit (WithMaxDepth(0))
+	nk := 0
+	for _, ct := range types {
+		if nk >= 2 {
+			break
+		}
+		for _, sk := range ct.Shapes[0].Structs {
+			if !sk.Top {
+				continue
+			}
+			ft, _ := reflect.TypeOf(ct.E.New()).Elem().FieldByName(sk.Name)
+			st := ft.Type
+			if st.Kind() == reflect.Pointer {
+				st = st.Elem()
+			}
+			doc := nestedJSONDoc(hx.NewRand(uint64(7+nk)), st)
+			if doc == "{}" {
+				continue
+			}
+			nk++
+			out = append(out, caseT{T: ct.E.Name, Tag: 0, Entry: hx.Pick(hx.NewRand(uint64(nk)), []string{"G", "T"}), Opts: optsT{0, -1, -1, false, false, nil},
+				Src: [][2]string{{sk.Key, doc}}, NJKey: sk.Key, NJName: sk.Name, NT: true})
+			break
+		}
+	}
 	// a []string field bound from a comma-separated value (CSV mode), then a later request with another list before
 	// the result is read: what the first bind returned is the caller's
 	ncsv := 0
